@@ -173,7 +173,7 @@ func c10IdentityChain(r *core.Report) {
 			}
 			errSide := leadsToErrorOnly(g, f, siblingEdge(e))
 			switch {
-			case callsEpochGetter(info, e.Ast) && errSide:
+			case epochGetterValueIn(f, e.Ast) && errSide:
 				epochEdge[e] = true
 			case core.Mentions(info, e.Ast, rootVar) && errSide:
 				rootEdge[e] = true
@@ -199,7 +199,7 @@ func c10IdentityChain(r *core.Report) {
 			nm := core.CalleeName(info, c)
 			isEpoch, isRoot := false, false
 			if len(c.Args) == 1 && mentionsX(c.Fun) {
-				isEpoch = strings.HasSuffix(nm, "Metadata).AssertEpoch") && callsEpochGetter(info, c.Args[0])
+				isEpoch = strings.HasSuffix(nm, "Metadata).AssertEpoch") && epochGetterValueIn(f, c.Args[0])
 				isRoot = strings.HasSuffix(nm, "Metadata).AssertRootCid") && core.ObjOf(info, c.Args[0]) == rootVar
 			}
 			if !isEpoch && !isRoot {
@@ -211,6 +211,15 @@ func c10IdentityChain(r *core.Report) {
 					for _, h := range calleesOfCall(p, f, c) {
 						e1, r1 := comparingHelper(p, h, ai, rootVar)
 						isEpoch, isRoot = isEpoch || e1, isRoot || r1
+						// the expected values are handed to the helper as arguments:
+						// checkIndexMetaIdentity("gsfa", X.Meta(), ep.Epoch(), lastRootCid)
+						e2, r2 := comparingHelperByArgs(p, h, ai, func(j int) (bool, bool) {
+							if j >= len(c.Args) {
+								return false, false
+							}
+							return epochGetterValueIn(f, c.Args[j]), core.ObjOf(info, c.Args[j]) == rootVar
+						})
+						isEpoch, isRoot = isEpoch || e2, isRoot || r2
 					}
 				}
 			}
@@ -225,7 +234,8 @@ func c10IdentityChain(r *core.Report) {
 				if x, isNil, isCmp := core.NilCompare(info, e.Ast.(ast.Expr)); isCmp && core.ObjOf(info, x) == eo && isNil == e.Truth && leadsToErrorOnly(g, f, siblingEdge(e)) {
 					if isEpoch {
 						epochEdge[e] = true
-					} else {
+					}
+					if isRoot {
 						rootEdge[e] = true
 					}
 				}
@@ -689,6 +699,27 @@ func callsEpochGetter(info *types.Info, n ast.Node) bool {
 	return found
 }
 
+// epochGetterValueIn: n calls the epoch getter, or mentions a local of f whose only definition is a call of it
+// (`wantEpoch := ep.Epoch()`).
+func epochGetterValueIn(f *core.Func, n ast.Node) bool {
+	info := f.Pkg.TypesInfo
+	if callsEpochGetter(info, n) {
+		return true
+	}
+	found := false
+	ast.Inspect(n, func(m ast.Node) bool {
+		if id, ok := m.(*ast.Ident); ok && !found {
+			if v, isVar := info.Uses[id].(*types.Var); isVar && !v.IsField() && !isParamOf(f.Root(), v) {
+				if d := singleDef(f.Root(), v); d != nil && callsEpochGetter(info, d) {
+					found = true
+				}
+			}
+		}
+		return !found
+	})
+	return found
+}
+
 // resultOfCall: e is a call of a function whose name ends in suffix, or a local assigned (once) from such a call.
 func resultOfCall(f *core.Func, e ast.Expr, suffix string) bool {
 	info := f.Pkg.TypesInfo
@@ -831,6 +862,47 @@ func comparingHelper(p *core.Prog, h *core.Func, idx int, rootVar types.Object) 
 			}
 			if rootVar != nil && core.Mentions(info, fc.Expr, rootVar) {
 				r1 = true
+			}
+		}
+		epochAll, rootAll = epochAll && e1, rootAll && r1
+	}
+	if nret == 0 {
+		return false, false
+	}
+	return epochAll, rootAll
+}
+
+// comparingHelperByArgs: every non-error return of h is reached only after a value derived from parameter idx was found
+// equal to another parameter j (the mismatch side leading to errors only); role(j) tells whether the caller passes the
+// epoch being loaded / the root variable there.
+func comparingHelperByArgs(p *core.Prog, h *core.Func, idx int, role func(j int) (isEpoch, isRoot bool)) (bool, bool) {
+	po := h.ParamObj(idx)
+	if po == nil || h.Body == nil {
+		return false, false
+	}
+	info := h.Pkg.TypesInfo
+	g := p.Graph(h)
+	derived := derivedLocals(h, po)
+	epochAll, rootAll, nret := true, true, 0
+	for _, rn := range g.Returns() {
+		if definitelyErrorReturn(g, h, rn) {
+			continue
+		}
+		nret++
+		e1, r1 := false, false
+		for _, fc := range g.FactsAt(rn) {
+			if fc.Tag != nil || fc.Edge == nil || !mentionsAny(info, fc.Expr, derived, false) || !isEqualityTest(info, fc.Expr) || !assertsEqual(info, fc.Expr, fc.Truth) {
+				continue
+			}
+			if !leadsToErrorOnly(g, h, siblingEdge(fc.Edge)) {
+				continue
+			}
+			for j := 0; h.ParamObj(j) != nil; j++ {
+				if j == idx || !core.Mentions(info, fc.Expr, h.ParamObj(j)) {
+					continue
+				}
+				ie, ir := role(j)
+				e1, r1 = e1 || ie, r1 || ir
 			}
 		}
 		epochAll, rootAll = epochAll && e1, rootAll && r1
